@@ -206,7 +206,7 @@ class Paraxial:
 
         # propagate marginal ray to this location
         yxp = yi + ui * xpl
-        return 2 * yxp[0]
+        return 2 * np.abs(yxp[0])
 
     def FNO(self):
         """Calculate the image-space F-number
